@@ -261,14 +261,31 @@ class Interp:
         self.graveyard = {}  # handle -> (descriptor copy, [state copies]) saved at deletion time
         self.stats = {'skipped': 0, 'applied': 0}
         self.last_info = None
+        self.tx_hook = None
+        self.point_hook = None
+        self.nested_hook = None  # callable(obj) applied to every transaction-owned object after _apply (nested writes)
 
     # ---- helpers
+    def _tx(self, kind):
+        """Transaction context manager; C03 installs `tx_hook` to wrap the manager (crash points) ."""
+        cm = getattr(self.mdib, TX[kind])()
+        if self.tx_hook is None:
+            return cm
+        return self.tx_hook(cm)
+
+    def _body_point(self):
+        if self.point_hook is not None:
+            self.point_hook()
+
     def _apply(self, obj, spec, protected):
         props = dict(obj.sorted_container_properties())
         for name, vspec in spec['set'].items():
             if name in protected or name not in props:
                 continue
             setattr(obj, name, T.spec_to_value(props[name], vspec))
+        if self.nested_hook is not None:
+            self.nested_hook(obj)
+        self._body_point()
 
     def _descr(self, handle):
         return self.mdib.descriptions.handle.get_one(handle, allow_none=True)
@@ -294,15 +311,15 @@ class Interp:
         return info
 
     def _op_empty(self, op, info):
-        with getattr(self.mdib, TX[op[1]])():
-            pass
+        with self._tx(op[1]):
+            self._body_point()
 
     def _op_state(self, op, info):
         _, kind, handle, spec, iface = op
         state = self.mdib.states.descriptor_handle.get_one(handle, allow_none=True)
         if state is None or T.cls_name(type(state)) != spec['cls']:
             raise Skip
-        with getattr(self.mdib, TX[kind])() as mgr:
+        with self._tx(kind) as mgr:
             if iface == 'classic':
                 st_ = mgr.get_state(handle)
                 self._apply(st_, spec, PROTECTED)
@@ -324,7 +341,7 @@ class Interp:
         state_cls = self.mdib.data_model.get_state_container_class(descr.STATE_QNAME)
         if T.cls_name(state_cls) != spec['cls']:
             raise Skip
-        with self.mdib.context_state_transaction() as mgr:
+        with self._tx('context') as mgr:
             if iface == 'classic':
                 st_ = mgr.mk_context_state(dhandle, shandle)
                 self._apply(st_, spec, PROTECTED)
@@ -342,7 +359,7 @@ class Interp:
         state = self.mdib.context_states.handle.get_one(shandle, allow_none=True)
         if state is None or T.cls_name(type(state)) != spec['cls']:
             raise Skip
-        with self.mdib.context_state_transaction() as mgr:
+        with self._tx('context') as mgr:
             if iface == 'classic':
                 st_ = mgr.get_context_state(shandle)
                 self._apply(st_, spec, PROTECTED)
@@ -491,7 +508,7 @@ class Interp:
             self._tx_state(mgr, op, info)
 
     def _single_descr(self, op, info):
-        with self.mdib.descriptor_transaction() as mgr:
+        with self._tx('descriptor') as mgr:
             self._descr_dispatch(mgr, op, info, set())
 
     _op_descr_update = _single_descr
@@ -501,7 +518,7 @@ class Interp:
 
     def _op_multi(self, op, info):
         applied = 0
-        with self.mdib.descriptor_transaction() as mgr:
+        with self._tx('descriptor') as mgr:
             created = set()
             for sub in op[1]:
                 try:
